@@ -51,6 +51,9 @@ def configs(tier):
                   label="2clients-same-id"))
     # application-chosen invoke IDs (second submit must be refused, third goes to another peer)
     C.append(MCfg(one, [2, 3], [(0, 2, 5), (0, 2, 5), (0, 3, 5)], inj=1, dup=0, label="app-chosen-ids"))
+    # chosen IDs that are no octet (one that folds onto a live ID, one negative): refused at submission, nothing left behind,
+    # the live request with ID 5 undisturbed
+    C.append(MCfg(one, [2], [(0, 2, 5), (0, 2, 261), (0, 2, -251), (0, 2, 256)], inj=0, dup=1, label="app-chosen-ids-out-of-range"))
     # the application re-uses its chosen invoke ID for the next request, sent from inside the confirmation of the previous
     # one, while a request to a slow second server (started later) is still outstanding
     C.append(MCfg(one, [2, 3], [(0, 2, 5), (0, 3, 9), (0, 2, 5, "cb")], inj=0, dup=1, deliver_width=2, label="app-chosen-id-reused-in-callback"))
